@@ -15,7 +15,7 @@ func init() {
 	register("C15", &propDef{
 		Title:           "Unpack materialises exactly what a well-formed archive says",
 		ConfigSensitive: true,
-		Rules: []func(*Checker){ruleGate("C15.gate"), ruleC15Deferred, ruleC15Truncate, ruleMaterialise("C15.materialise"), ruleRestore("C15.restore"), ruleMeta("C15.meta"), ruleC01NoFollowAs("C15.lastwins"), ruleC15XHeader, ruleC15Retry, ruleLinkRestore("C15.linkrestore"), ruleRestoreOrderKept("C15.stableorder"), aliasRule(ruleC01Replace, "C01.replace", "C15.replace", 1),
+		Rules: []func(*Checker){ruleGate("C15.gate"), ruleBodyAlwaysCopied("C15.bodycopied"), ruleC15Deferred, ruleC15Truncate, ruleMaterialise("C15.materialise"), ruleRestore("C15.restore"), ruleMeta("C15.meta"), ruleC01NoFollowAs("C15.lastwins"), ruleC15XHeader, ruleC15Retry, ruleLinkRestore("C15.linkrestore"), ruleRestoreOrderKept("C15.stableorder"), aliasRule(ruleC01Replace, "C01.replace", "C15.replace", 1),
 			aliasRuleFiltered(ruleC02LinkTarget, "C02.linktarget", "C15.linktarget", 1, func(o Oblig) bool { return strings.Contains(o.Key, "Unpack") }),
 			func(c *Checker) {
 				unpackHelpers = map[string]bool{}
@@ -44,6 +44,8 @@ func init() {
 			// that also looks at the destination itself refuses every entry when that is a link to a directory
 			// what is left out is decided on the entry's name relative to the slug root, as the rules are written for
 			aliasRuleFiltered(ruleWalkRoles("C03.roles"), "C03.roles", "C02.entryname", 1, func(o Oblig) bool { return strings.Contains(o.Key, "ignore rules get the entry name") }),
+			// what Pack writes, Unpack accepts: a link the validator said yes to is not refused by a second opinion
+			ruleAcceptedLinkIsCreated("C02.created"),
 			aliasRuleFiltered(ruleC01Walk, "C01.walk", "C02.walked", 1, func(o Oblig) bool { return strings.Contains(o.Key, "walked path") })},
 		NotDecided: []string{
 			"round-trip equality itself: tar rounding of mtimes, PAX name handling, Perm() arithmetic, content bytes",
